@@ -75,6 +75,7 @@ class Model:
             self._new_handle(h, args)
         self.contraction = bool(spec.get("contraction", True))
         self.phase_sign = +1  # ambiguity (ii): calibrated, see calibrate_phase_sign
+        self.tags = dict(spec.get("tags", {}))
 
     def copy(self):
         m = Model.__new__(Model)
@@ -85,6 +86,7 @@ class Model:
         m.members = {h: set(v) for h, v in self.members.items()}
         m.contraction = self.contraction
         m.phase_sign = self.phase_sign
+        m.tags = self.tags
         return m
 
     # ------------------------------------------------------------------ membership
@@ -327,7 +329,10 @@ class Model:
                 elif x in self.members:
                     pass
                 elif x in R.kinds and R.kinds[x] == "Q":
-                    pass
+                    # a custom state that already belongs to a composite envelope: whether a second
+                    # constructor call must merge is left open by the documentation -> not issued
+                    if self.handle_of(x) is not None:
+                        return False
                 else:
                     return False
             return len(args) >= 1
